@@ -478,7 +478,7 @@ def main(ctx):
     import c04
     guarded(ctx, 'general encoder recipients', 'M', lambda: c11.run(ctx, prog, only=r'^general-encoder/'))
     import c01
-    guarded(ctx, 'item accessors (nonce, kid, alg)', 'M', lambda: c01.run(ctx, prog, only=r'^JwsValidationItem::'))
+    guarded(ctx, 'item accessors (nonce, kid, alg)', 'M', lambda: c01.run(ctx, prog, only=r'^JwsValidationItem::|^decode_signature/|^decode_general/item/'))
     guarded(ctx, 'base64url codec binding', 'M', lambda: c01.codec_binding(ctx, prog))
     # the emitted header is the header that was validated: the derived Serialize of the header types leaves a member out only when
     # it is absent (a value-dependent skip - say of `b64: true` - makes the decoder see another header than the encoder checked)
@@ -489,6 +489,6 @@ def main(ctx):
     def verification_side():
         prog2, info2 = load(c03.CRATES, src_only=c03.SRC)
         c03.run(ctx, prog2, only=r'^verify_jws/')
-        c04.run(ctx, prog2, only=r'^resolve_method/|^resolve_method_ref/')
+        c04.run(ctx, prog2, only=r'^resolve_method/|^resolve_method_ref/|^DIDUrlQuery::matches/')
     guarded(ctx, 'verification side', 'M', verification_side)
     guarded(ctx, 'storage-backed signing', 'M', lambda: storage_signing(ctx))
